@@ -38,6 +38,8 @@ pub struct Net {
     pub injector: Option<Box<dyn Injector>>,
     /// port → full socket address (learned from traffic and registration)
     pub addrs: HashMap<u16, SocketAddress>,
+    /// last datagram that was delivered unharmed, per (src port, dst port)
+    pub last_good: HashMap<(u16, u16), Vec<u8>>,
 }
 
 impl Net {
@@ -51,6 +53,7 @@ impl Net {
             dir_idx: [0; 2],
             injector: None,
             addrs: HashMap::new(),
+            last_good: HashMap::new(),
         }
     }
 
@@ -184,6 +187,18 @@ impl Net {
                 }
             }
         }
+        // rebound client sockets use ports 20000 + ep * 64 + k (app.rs): the k-th path of a
+        // client may have its own delay
+        let path_delay = {
+            let port = if src == Some(SERVER) { dst_port } else { src_port };
+            let f = if port >= 20_000 {
+                let k = ((port - 20_000) % 64) as usize;
+                plan.rebind_delay_permille.get(k.wrapping_sub(1)).copied().unwrap_or(1000)
+            } else {
+                1000
+            };
+            (plan.delay_us * f / 1000).max(1)
+        };
         let fate = fate.unwrap_or_else(|| {
             let jitter = if plan.jitter_us > 0 {
                 r.range(0, plan.jitter_us)
@@ -191,13 +206,35 @@ impl Net {
                 0
             };
             Fate::Deliver {
-                at: now + plan.delay_us + jitter + extra_delay,
+                at: now + path_delay + jitter + extra_delay,
                 copies,
                 mutated,
             }
         });
 
         self.w.lock().unwrap().wire(&wire, &fate);
+
+        match &fate {
+            Fate::Deliver { mutated: false, .. } => {
+                self.last_good.insert((src_port, dst_port), packet.payload.clone());
+            }
+            Fate::Drop("blackhole") | Fate::Drop("phase-blackhole") if self.plan.blackhole_kind != 0 => {
+                // the blackhole swallows the datagram but something unusable arrives instead
+                let bytes = if self.plan.blackhole_kind == 1 {
+                    let mut b = packet.payload.clone();
+                    if let Some(last) = b.last_mut() {
+                        *last ^= 0x55;
+                    }
+                    Some(b)
+                } else {
+                    self.last_good.get(&(src_port, dst_port)).cloned()
+                };
+                if let Some(bytes) = bytes {
+                    self.inject(buffers, Inject { src_port, dst_port, bytes, delay_us: 0 }, now);
+                }
+            }
+            _ => {}
+        }
 
         if let Fate::Deliver { at, copies, .. } = &fate {
             for c in 0..*copies {
